@@ -143,11 +143,13 @@ func (s *Server) handleConn(ctx context.Context, conn net.Conn) error {
 			return nil
 		case *pgproto3.Query:
 			start := time.Now()
+			// The decision is made on, and cached for, exactly the text that is
+			// forwarded; the 512-byte form is for the audit log only.
 			trimmed := trimQuery(m.String)
-			key := cacheKey(trimmed)
+			key := cacheKey(m.String)
 			decision, hit := cache.get(key)
 			if !hit {
-				allowed, reason, topics, showTopics := authorizeQuery(acl, trimmed)
+				allowed, reason, topics, showTopics := authorizeQuery(acl, m.String)
 				decision = cacheDecision{
 					created:    time.Now(),
 					allowed:    allowed,
